@@ -48,7 +48,7 @@ NoStep == [codec |-> "", ne |-> FALSE]
 
 \* -> [m, err]
 ApplyStep(M, s, order, S) ==
-  CASE s.a = "C" -> LET c == Compile(M, s.ne, S) IN [m |-> c.m, err |-> c.err]
+  CASE s.a = "C" -> LET c == CompileDict(M, s.ne, S) IN [m |-> c.m, err |-> c.err]
     [] s.a = "P" -> [m |-> PformatEval(M, order, S), err |-> ""]
     [] OTHER -> [m |-> DeepCopy(M), err |-> ""]
 
@@ -56,7 +56,8 @@ AnyParam(M) == \E a \in 1..Len(M) : \E t \in 1..Len(M[a].types) : M[a].types[t].
 
 \* deviations whose clause can be reached at this step
 Hit(M, s) ==
-  CASE s.a = "C" -> (IF s.ne THEN {"DevEnumDefaultInPlace", "DevEnumMarkerUnpack"} ELSE {})
+  CASE s.a = "C" -> {"DevCompileInPlace"}
+                    \cup (IF s.ne THEN {"DevEnumDefaultInPlace", "DevEnumMarkerUnpack"} ELSE {})
                     \cup (IF Len(M) > 1 THEN {"DevModuleMajorPasses"} ELSE {})
                     \cup (IF AnyParam(M) THEN {"DevDefaultsBeforeParameterization"} ELSE {})
     [] s.a = "P" -> {"DevPformatSortsDicts"}
